@@ -142,7 +142,8 @@ def c07(tier):
     if thorough:
         _model(chk, "MCReadConn", "MCReadConn_b.cfg", "b-3frames-body3", coverage=True)
         _model(chk, "MCReadConn", "MCReadConn_c.cfg", "c-limit8", coverage=True)
-    beh, full = export_behaviours(chk, "MCReadConnExport_q1.cfg", "q1", None if thorough else 5000)
+    beh, full = export_behaviours(chk, "MCReadConnExport_q1t.cfg" if thorough else "MCReadConnExport_q1.cfg", "q1",
+                                  60000 if thorough else 5000)
     run_family(chk, "framing", "tiny", ["--seed", s, "--n", 0, "--behaviours", beh, "--cancels"], [FT],
                "tlc-behaviours", drift_specs=[RT])
     run_family(chk, "framing", "tiny", ["--seed", s, "--n", 0, "--tiny", 20000 if thorough else 2500,
